@@ -1254,3 +1254,42 @@ def copyfileobj_length_confusion(fn_node):
                     out.append((c, "copyfileobj-length", f"`{A.unparse(c)[:70]}` passes `{A.unparse(third)}` as third argument of copyfileobj: that parameter is the copy buffer size — "
                                 f"the entire source is copied, not the first `{A.unparse(third)}` bytes"))
     return out
+
+
+def child_status_conjoined(fn_node):
+    """``ret, output = spawn_get_output(cmd)`` … ``if ret and output: raise …`` — the child's failure status is reported only
+    when something else (its output being non-empty, a flag) also holds: a child that fails silently is taken for a success.
+    Exact shape: the status name (first element bound from a ``spawn*`` call / a ``.returncode``) is one operand of an ``and``
+    whose ``if`` body raises, and no other ``if`` in the function tests the status on its own."""
+    out = []
+    status = {}
+    for n in ast.walk(fn_node):
+        if isinstance(n, ast.Assign) and isinstance(n.value, ast.Call):
+            d = A.unparse(n.value.func).split(".")[-1]
+            t = n.targets[0]
+            if d.startswith("spawn"):
+                if isinstance(t, ast.Tuple) and t.elts and isinstance(t.elts[0], ast.Name):
+                    status[t.elts[0].id] = n
+                elif isinstance(t, ast.Name):
+                    status[t.id] = n
+    if not status:
+        return out
+
+    def is_status(e):
+        if isinstance(e, ast.Name) and e.id in status:
+            return e.id
+        if isinstance(e, ast.Compare) and len(e.ops) == 1 and isinstance(e.ops[0], (ast.NotEq, ast.Gt)) and isinstance(e.left, ast.Name) and e.left.id in status \
+                and isinstance(e.comparators[0], ast.Constant) and e.comparators[0].value == 0:
+            return e.left.id
+        return None
+    alone = {is_status(i.test) for i in ast.walk(fn_node) if isinstance(i, ast.If)} - {None}
+    for i in ast.walk(fn_node):
+        if isinstance(i, ast.If) and isinstance(i.test, ast.BoolOp) and isinstance(i.test.op, ast.And) and len(i.test.values) >= 2:
+            st = [is_status(v) for v in i.test.values]
+            nm = next((x for x in st if x), None)
+            if nm and nm not in alone and any(isinstance(r, ast.Raise) for b in i.body for r in ast.walk(b)):
+                others = " and ".join(A.unparse(v) for v, x in zip(i.test.values, st) if not x)
+                out.append((i, f"child-status-conjoined:{nm}", f"the child's exit status `{nm}` (from `{A.unparse(status[nm].value.func)}`) is reported only when `{others}` holds as well: "
+                            f"a child that fails without that (no output, flag unset) is answered as a success"))
+    return out
+
